@@ -38,11 +38,31 @@ variable {F : Type} [DecidableEq F] (fo : FloatOps F)
 /-- **Round trip, every type.** For each of the 26 rows and every value of the row's Python class
     (any integer `str` can print, any float, any string, both booleans, every date 0001..9999, every
     time / date-time at second precision, naive or with any whole-minute offset): `coerce_upnp` yields
-    exactly the prescribed wire form and `coerce_python` of that text yields the value back. -/
+    exactly the prescribed wire form and `coerce_python` of that text yields the value back.
+    `rtDomain` also contains a `bool` given under an integer type (`bool` is a subclass of `int`):
+    it is written `1`/`0` and read back as the integer `1`/`0`, i.e. the value Python considers equal
+    to it (`expectBack`; for every other value `expectBack ty v = v`, see `roundtrip_exact_class`). -/
 theorem roundtrip_all_types (hf : fo.RoundTrips) (row : TypeRow) (hrow : row ∈ rows) (v : Val F)
     (hv : rtDomain row.ty v = true) :
-    coerceUpnp fo row v = .ok (wire fo v) ∧ coercePython fo table row (wire fo v) = .ok v :=
+    coerceUpnp fo row v = .ok (wire fo v) ∧ coercePython fo table row (wire fo v) = .ok (expectBack row.ty v) :=
   roundtrip_row fo table table_good row (rows_good row hrow) hf v hv
+
+/-- the integer (and every other) case is not weakened: for a value of exactly the row's class the
+    value read back is the value itself -/
+theorem roundtrip_exact_class (hf : fo.RoundTrips) (row : TypeRow) (hrow : row ∈ rows) (v : Val F)
+    (hv : rtDomain row.ty v = true) (hex : v.exactType row.ty = true) :
+    coerceUpnp fo row v = .ok (wire fo v) ∧ coercePython fo table row (wire fo v) = .ok v := by
+  have := roundtrip_all_types fo hf row hrow v hv
+  rwa [expectBack_exact row.ty v hex] at this
+
+/-- a `bool` under any of the integer rows: written `1`/`0`, read back as the integer Python
+    considers equal to it (`True == 1`, `False == 0`) -/
+theorem roundtrip_bool_under_int (row : TypeRow) (hrow : row ∈ rows) (hty : row.ty = .int) (b : Bool) :
+    coerceUpnp fo row (.bool b) = .ok [if b then '1' else '0']
+    ∧ coercePython fo table row [if b then '1' else '0'] = .ok (.int (if b then 1 else 0))
+    ∧ pyEq fo (.bool b) (.int (if b then 1 else 0)) = true := by
+  obtain ⟨h1, h2⟩ := roundtrip_bool_int fo table row (rows_good row hrow) hty b
+  exact ⟨h1, h2, by cases b <;> rfl⟩
 
 /-- the same statement through the run-time judge: the model's observations always satisfy `rtOk` -/
 theorem roundtrip_judged (hf : fo.RoundTrips) (row : TypeRow) (hrow : row ∈ rows) (v : Val F) :
@@ -92,27 +112,30 @@ theorem decimal_digits (n : Nat) :
     any letter case read as False (for the `boolean` row of the source's table). -/
 theorem bool_spellings (hf : fo.RoundTrips) (row : TypeRow) (hrow : row ∈ rows) (hty : row.ty = .bool)
     (k m : Nat) (b : Bool) (s : Str) (hs : spell fo (.boolWord k m) (.bool b) = some s) :
-    coercePython fo table row s = .ok (.bool b) :=
-  spelling_row fo table table_good row (rows_good row hrow) hf (.boolWord k m) (.bool b) s
-    (by simp [rtDomain, Val.exactType, Val.wellFormed, hty]) hs
+    coercePython fo table row s = .ok (.bool b) := by
+  have := spelling_row fo table table_good row (rows_good row hrow) hf (.boolWord k m) (.bool b) s
+    (by simp [spellDomain, rtDomain, valueOk, Val.exactType, Val.wellFormed, hty]) hs
+  rwa [expectBack_exact row.ty (.bool b) (by simp [Val.exactType, hty])] at this
 
 /-- **ISO-8601 spellings.** For the date/time rows: `T` or a space between date and time, `Z`/`z`
     for UTC, offsets as `±HH:MM` or `±HHMM`, with or without a space before the offset — each is read
     back as the value it spells. (`Spelling` enumerates the forms; `canon` is the wire form.) -/
 theorem iso_spellings (hf : fo.RoundTrips) (row : TypeRow) (hrow : row ∈ rows) (sp : Spelling) (v : Val F) (s : Str)
-    (hv : rtDomain row.ty v = true) (hs : spell fo sp v = some s) :
-    coercePython fo table row s = .ok v :=
-  spelling_row fo table table_good row (rows_good row hrow) hf sp v s hv hs
+    (hv : rtDomain row.ty v = true) (hex : v.exactType row.ty = true) (hs : spell fo sp v = some s) :
+    coercePython fo table row s = .ok v := by
+  have := spelling_row fo table table_good row (rows_good row hrow) hf sp v s
+    (by simp [spellDomain, hv, hex]) hs
+  rwa [expectBack_exact row.ty v hex] at this
 
-/-- the same through the run-time judge -/
+/-- the same through the run-time judge (which also covers the wire form of a `bool` under an integer type) -/
 theorem spelling_judged (hf : fo.RoundTrips) (row : TypeRow) (hrow : row ∈ rows) (sp : Spelling) (v : Val F) (s : Str) :
     spellOk fo row.ty sp v s (coercePython fo table row s) = true := by
   unfold spellOk
-  cases hd : (rtDomain row.ty v && spell fo sp v == some s) with
+  cases hd : (spellDomain row.ty sp v && spell fo sp v == some s) with
   | false => rfl
   | true =>
     simp only [Bool.and_eq_true, beq_iff_eq] at hd
-    rw [iso_spellings fo hf row hrow sp v s hd.1 hd.2]
+    rw [spelling_row fo table table_good row (rows_good row hrow) hf sp v s hd.1 hd.2]
     simp
 
 /-! ### conversion is total up to ValueError -/
@@ -160,7 +183,8 @@ theorem wire_declaration_denotes (hf : fo.RoundTrips) (row : TypeRow) (hrow : ro
     (hal : ∀ v ∈ a0 :: al, rtDomain row.ty v = true) :
     Denotes (coercePython fo table row)
       { range := some (some (wire fo lo), some (wire fo hi)), allowed := some ((a0 :: al).map (wire fo)), default := none }
-      { min := some lo, max := some hi, allowed := some (a0 :: al) } := by
+      { min := some (expectBack row.ty lo), max := some (expectBack row.ty hi),
+        allowed := some ((a0 :: al).map (expectBack row.ty)) } := by
   have rt := fun v hv => (roundtrip_all_types fo hf row hrow v hv).2
   refine ⟨?_, ?_⟩
   · simp only
@@ -168,13 +192,17 @@ theorem wire_declaration_denotes (hf : fo.RoundTrips) (row : TypeRow) (hrow : ro
     · unfold DenOpt nonEmpty
       cases h : wire fo lo with
       | nil => exact absurd h hlo'
-      | cons c r => simp only [List.isEmpty_cons, Bool.false_eq_true, if_false]; exact ⟨lo, rfl, by rw [← h]; exact rt lo hlo⟩
+      | cons c r =>
+        simp only [List.isEmpty_cons, Bool.false_eq_true, if_false]
+        exact ⟨expectBack row.ty lo, rfl, by rw [← h]; exact rt lo hlo⟩
     · unfold DenOpt nonEmpty
       cases h : wire fo hi with
       | nil => exact absurd h hhi'
-      | cons c r => simp only [List.isEmpty_cons, Bool.false_eq_true, if_false]; exact ⟨hi, rfl, by rw [← h]; exact rt hi hhi⟩
+      | cons c r =>
+        simp only [List.isEmpty_cons, Bool.false_eq_true, if_false]
+        exact ⟨expectBack row.ty hi, rfl, by rw [← h]; exact rt hi hhi⟩
   · simp only [List.map_cons]
-    refine ⟨a0 :: al, rfl, ?_⟩
+    refine ⟨expectBack row.ty a0 :: al.map (expectBack row.ty), rfl, ?_⟩
     have := mapM_wire fo table table_good row (rows_good row hrow) hf (a0 :: al) hal
     simpa using this
 
